@@ -12,7 +12,7 @@ OPT_QUICK_ALL = True      # every partition also in a child interpreter started 
 LEVEL = "model_checking"
 TECHNIQUE = "exhaustive enumeration of (status byte x sense x transport x call path x raw flag) at depth 1 and of all status/command histories up to a depth bound on real device objects over stand-in bindings, judged by a status->outcome reference model"
 RULE = ("depth 1: all 256 status bytes x {SG_IO, iSCSI} x {device.execute, SCSI.execute} x raw-sense {off,on} x (READ(10) x 5 sense buffers + 7 other commands incl. ATA PASS-THROUGH with/without CK_COND), and all 256 "
-        "status bytes x both transports x each of the 38 facade methods on every command set offering it x 2 sense buffers; histories: all "
+        "status bytes x both transports x each of the 38 facade methods on every command set offering it x 2 sense buffers; the same command inside `with device:` / `with SCSI(device):` blocks x 8 statuses x 6 values handed back by the binding's disconnect (the error must leave the block); histories: all "
         "sequences up to length L (3 quick, 4 thorough) over {GOOD, CHECK CONDITION, BUSY, RESERVATION CONFLICT, 7Fh} x {TEST UNIT READY, "
         "READ(10), INQUIRY} on one device per transport, every step judged and every GOOD step's result compared with the target, once with a fresh facade call per step and once with one command object per kind submitted again at every step (retry loop); each CHECK CONDITION step carries its own distinct sense data; later steps also range over ATA PASS-THROUGH(16) facade calls (GOOD / CHECK CONDITION / transport I/O error), a refused ATA call (no block size) and a transport I/O error during TEST UNIT READY. "
         "states = distinct canonical device/facade snapshots reached, transitions = commands executed in histories. Non-trivial = status "
@@ -42,6 +42,7 @@ def partitions(tier):
     parts = []
     for tr in ("sgio", "iscsi"):
         parts.append(["direct", tr])
+        parts.append(["with", tr])
         for m in F.FACADE:
             parts.append(["facade", tr, m])
         for first in ("tur", "read10", "inquiry"):
@@ -163,6 +164,40 @@ def run_case(case, obs=None):
                           % (status, len(rig.target.log) - n0)))
             return v
         finally:
+            rig.close()
+    if mode == "with":
+        # the command runs inside a `with` block over the device or the facade; whatever close()/disconnect() hands back when the
+        # block is left, the error of the failed command must reach the code around the block
+        from vf.sim import registry
+        _, tr, how, status, dres = case
+        rig = harness.Rig(tr, 0x00)
+        registry.disconnect_result = dres
+        out = []
+        try:
+            s = rig.facade()
+            rig.target.script.append((status, SENSES["fixed18"][0]))
+            reached = [False]
+
+            def block():
+                if how == "dev":
+                    with rig.dev as d:
+                        d.execute(new_cmd("tur", d))
+                        reached[0] = True
+                else:
+                    with s as f:
+                        f.testunitready()
+                        reached[0] = True
+                return None
+            oc = attempt(block)
+            if obs is not None:
+                obs.append((oc[0], type(oc[1]).__name__))
+            where = "with-%s" % how
+            if status != 0x00 and reached[0]:
+                out.append(("%s/%s/failed_command_continues" % (tr, where), "status %#04x: the statement after the command inside the block was reached" % status))
+            out += judge(tr, status, "fixed18", False, oc, None, where)
+            return out
+        finally:
+            registry.disconnect_result = None
             rig.close()
     if mode in ("hist", "rehist"):
         _, tr, steps = case
@@ -295,6 +330,14 @@ def run_partition(part, tier, seed):
                         do(["direct", tr, path, status, "fixed18", raw, ckind], status != 0)
                         acc.traces += 1
                         acc.transitions += 1
+    elif part[0] == "with":
+        tr = part[1]
+        for how in ("dev", "scsi"):
+            for status in (0x00, 0x02, 0x08, 0x18, 0x28, 0x30, 0x40, 0x7F):
+                for dres in (None, 0, -1, 1, True, "closed"):
+                    do(["with", tr, how, status, dres], status != 0)
+                    acc.traces += 1
+                    acc.transitions += 1
     elif part[0] == "facade":
         _, tr, m = part
         for st in F.sets_offering(m):
